@@ -268,6 +268,7 @@ def run(ctx):
     rule_pairs(eng, ctx)
     rule_construction(eng)
     rule_copies(eng)
+    rule_subscripts(eng)
     rule_subtractions(eng)
     rule_loops(eng)
     rule_nullable(eng)
@@ -1127,6 +1128,50 @@ def rule_copies(eng):
                                 ok = True
                     res.check(ok, "C02-R3", "%s:byte-read@%s" % (f.name.replace(NS, ""), (n.get("loc") or "").split(":", 1)[-1]), n.get("loc"),
                               "byte read inside the payload guarded by size() > offset", "byte read at a data-dependent offset of the payload without a size guard")
+
+
+def rule_subscripts(eng):
+    """C02-R3 (subscripts): element access on a payload's own byte vector — v[i], v.at(i) is checked by the library, v[i] is
+    not — needs `size() > i` live where it is evaluated, unless i is a constant inside the header the class invariant guarantees."""
+    fb, res = eng.fb, eng.res
+    n = 0
+    for f in eng.fns:
+        if not f.cfg_raw:
+            continue
+        for c in f.calls():
+            if (c.get("callee") or {}).get("nm") != "operator[]" or not fb.is_payload_buffer(c.get("obj", {})) or not c.get("args"):
+                continue
+            n += 1
+            idx = c["args"][0]
+            iv = const_value(idx)
+            key = "%s:subscript@%s" % (f.name.replace(NS, ""), (c.get("loc") or "").split(":", 1)[-1])
+            vec = canon(c["obj"])
+            fs = eng.mf(f).at(c)
+            if iv is not None:
+                hs = fb.record(eng.typed[f.rec])["size"] if f.rec in getattr(eng, "typed", {}) else 0
+                ok = iv < hs or lb_from_facts(fs, vec + ".std::vector::size()") >= iv + 1
+                res.check(ok, "C02-R3", key, c.get("loc"), "constant index %d inside the guaranteed %d bytes / a live size guard" % (iv, hs),
+                          "byte %d of the payload is read without the payload being known to hold %d bytes" % (iv, iv + 1))
+                continue
+            want = facts.xcanon(f, idx)
+            ok = False
+            for a in fs:
+                if a[0] != "cmp" or "size()" not in (a[1] + a[3]):
+                    continue
+                for x, y, op in ((a[4], a[5], a[2]), (a[5], a[4], facts._flip_op(a[2]))):
+                    xs = strip_all_casts(x)
+                    if xs.get("k") == "call" and (xs.get("callee") or {}).get("nm") == "size" and canon(xs.get("obj")) == vec:
+                        yx = facts.xcanon(f, y)
+                        if op == ">" and yx == want:
+                            ok = True
+                        if op == ">=":
+                            yy = strip_all_casts(facts.expand(f, y))
+                            if yy.get("k") == "bin" and yy.get("op") == "+" and (const_value(yy["r"]) or 0) >= 1 and facts.xcanon(f, yy["l"]) == want:
+                                ok = True
+            res.check(ok, "C02-R3", key, c.get("loc"), "index `%s` guarded by size() > index" % want[:60],
+                      "`%s[%s]` reads a byte at a data-dependent position without a live `size() > %s`: one byte past the payload is returned when the "
+                      "payload ends exactly there" % (vec.split("->")[-1], canon(idx)[:50], canon(idx)[:50]))
+    return n
 
 
 def own_offset_canon(e):
